@@ -23,7 +23,7 @@ REQUIRED = ["payload_only_in_payload_msg", "private_payload_release_sound", "dec
             "connection_authenticated_only_via_authenticator", "fact_authenticate_call_sites",
             "created_private_has_full_pal", "fact_encrypt_and_authenticator_stateless",
             "fact_payload_presence_guards", "public_tx_admitted_only_with_payload",
-            "offloaded_certificate_needs_exactly_one_value", "fact_offloading_header_checks", "authenticated_with_proven_certificate"]
+            "offloaded_certificate_needs_exactly_one_value", "fact_offloading_header_checks", "authenticated_with_proven_certificate", "decryptPAL_depends_only_on_keys_and_header", "header_prefix_does_not_determine_list", "fact_sent_envelopes_fresh", "fact_decryptPAL_stateless"]
 
 
 def run(ctx):
@@ -129,7 +129,16 @@ def run(ctx):
         v = by_name.get(lk["scenario"])
         rp = replay_text(ops, header, v["first_op"], v["last_op"]) if v else json.dumps(lk)
         ctx.violation(sig, f"{what}: {json.dumps(lk)[:300]}", f"{sig.split(':')[1]}.jsonl", rp)
-    ctx.oblige("oracle:every-sent-envelope-scanned-for-private-payload-bytes(impl)", n_bad == 0, f"{n_bad} disallowed of {len(leaks)} envelopes carrying private bytes")
+    # the connection only QUEUES the pointer it is given: what is written to the stream later must be what the handler sent
+    n_changed = 0
+    for v in verdicts:
+        if v.get("changed"):
+            n_changed += 1
+            n_bad += 1
+            if n_changed == 1:
+                ctx.violation("C15:queued-message-changed-after-send", f"scenario {v['scenario']}: a message queued by Send is modified afterwards (the sender goroutine marshals it "
+                              f"later): {v['changed'][:3]}", "queued-message-changed-after-send.jsonl", replay_text(ops, header, v["first_op"], v["last_op"]))
+    ctx.oblige("oracle:every-envelope-scanned-for-private-payload-bytes-at-send-and-when-written-later(impl)", n_bad == 0, f"{n_bad} disallowed of {len(leaks)} envelopes carrying private bytes")
 
     # ---- oracle 2: payload store changes iff transaction present and hash matches
     s_bad = 0
